@@ -56,3 +56,54 @@ func VerifC16_Qualification() {
 	}
 	symx.Reach("end")
 }
+
+// The documented rule itself: a proof is accepted exactly when its value ratio is below the
+// stake ratio, and qn = floor(ratio/step)+1 with step = min(stake ratio, 1)/MaxQN, evaluated in
+// float64 (so the quotient may be off by a relative 2^-52) and capped at MaxQN. The reference
+// below is an independent exact-rational transcription.
+func VerifC16_QnRule() {
+	c16Setup()
+	prove := make([]byte, ed25519.ProveSize)
+	v := symx.Big("lottery", 256)
+	v.FillBytes(prove[:32])
+	totals := []uint64{1, 2, 5, 10, 15, 100, 1 << 40}
+	workings := []uint64{0, 1, 2, 7}
+	total := totals[symx.Choice("total", len(totals))]
+	working := workings[symx.Choice("working", len(workings))]
+	height := []uint64{1, 1 << 40}[symx.Choice("height", 2)]
+	symx.Assume(working == 0 || total >= working)
+	ok, qn := validateProve(prove, height, working, total)
+
+	difficulty := uint64(1)
+	if working != 0 && height > common.LocalChainConfig.Proposal025Block+common.GetRewardBlocks() {
+		difficulty = total / working
+	}
+	pp := total * uint64(model.Param.PotentialProposalIndex) / 100
+	if pp < model.Param.PotentialProposal {
+		pp = model.Param.PotentialProposal
+	}
+	if pp > model.Param.PotentialProposalMax {
+		pp = model.Param.PotentialProposalMax
+	}
+	stake := new(big.Rat).SetFrac(new(big.Int).SetUint64(difficulty*pp), new(big.Int).SetUint64(total))
+	all1 := new(big.Int).Sub(new(big.Int).Lsh(big.NewInt(1), 256), big.NewInt(1))
+	ratio := new(big.Rat).SetFrac(v, all1)
+	symx.Check(ok == (ratio.Cmp(stake) < 0), "accepted exactly when the value ratio is below the stake ratio")
+	if ok {
+		capped := stake
+		if capped.Cmp(big.NewRat(1, 1)) > 0 {
+			capped = big.NewRat(1, 1)
+		}
+		maxQN := int64(model.Param.MaxQN)
+		r := new(big.Rat).Quo(ratio, new(big.Rat).Quo(capped, big.NewRat(maxQN, 1)))
+		eps := new(big.Rat).SetFrac(big.NewInt(1), new(big.Int).Lsh(big.NewInt(1), 52))
+		hi := new(big.Rat).Mul(r, new(big.Rat).Add(big.NewRat(1, 1), eps))
+		lo := new(big.Rat).Mul(r, new(big.Rat).Sub(big.NewRat(1, 1), eps))
+		q := new(big.Rat).SetInt(new(big.Int).SetUint64(qn))
+		symx.Check(new(big.Rat).Sub(q, big.NewRat(1, 1)).Cmp(hi) <= 0, "qn - 1 is at most ratio/step")
+		if qn < uint64(maxQN) {
+			symx.Check(q.Cmp(lo) > 0, "qn exceeds ratio/step (unless capped at MaxQN)")
+		}
+	}
+	symx.Reach("end")
+}
